@@ -26,24 +26,25 @@ func (g *gen) lhs() {
 	switch g.pickW(5, 2, 2, 1) {
 	case 0:
 		g.use("primary.identifier")
-		g.w(g.sname())
+		g.w(g.vname(false, 45))
 	case 1:
 		g.use("expression.fieldAccess")
 		g.use("primary.this")
 		g.w("this")
 		g.glue(".")
-		g.glue(g.lname())
+		g.glue(g.fieldName())
 	case 2:
 		g.use("expression.arrayAccess")
-		g.w(g.sname(), "[")
+		g.w(g.vname(false, 45), "[")
 		g.expr()
 		g.w("]")
 	case 3:
 		g.use("expression.fieldAccess")
-		g.w(g.sname())
+		g.w(g.vname(false, 45))
 		g.glue(".")
 		g.glue(g.lname())
 	}
+	g.lastUse = nil
 }
 
 func (g *gen) assignment() {
@@ -154,21 +155,57 @@ func (g *gen) binary() {
 
 // simpleRefType: a reference type without generics (safe in front of further operators)
 func (g *gen) simpleRefType() {
-	switch g.pickW(5, 2, 1) {
+	g.lastAnn = false
+	switch g.pickW(5, 2, 1, 1) {
 	case 0:
 		g.use("classOrInterfaceType.simple")
-		g.w(g.tname())
+		g.w(g.typeUseName(g.tname()))
+		g.lastShape = "simple"
 	case 1:
 		g.use("classOrInterfaceType.qualified")
 		g.qualifiedName(2)
 		g.glue(".")
 		g.glue(g.tname())
+		g.lastShape = "qualified"
 	case 2:
 		g.use("typeType.array")
 		g.use("typeType.primitive")
 		g.w(primitives[g.n(len(primitives))], "[")
 		g.glue("]")
+		g.lastShape = "array"
+	case 3:
+		g.use("classOrInterfaceType.nested")
+		g.w(g.typeUseName(g.tname()))
+		g.glue(".")
+		g.glue(g.tname())
+		g.lastShape = "nested"
 	}
+}
+
+// patternVariable: the type and the binding name of a type pattern; the name is a declared variable from here on
+func (g *gen) patternVariable() {
+	g.simpleRefType()
+	name := g.sname()
+	g.w(name)
+	g.declare(name, "patternVariable")
+}
+
+// fieldName is the name after `this.`: a field (or record component) declared earlier in an enclosing
+// type, else any name as before.
+func (g *gen) fieldName() string {
+	if len(g.scope) > 0 && g.chance(50) {
+		for i, seen := len(g.scope)-1, 0; i >= 0 && seen < 8; i-- {
+			if d := g.scope[i]; d.kind == "field" || d.kind == "recordComponent" {
+				seen++
+				if seen == 8 || g.chance(60) {
+					g.use("use.thisField")
+					g.lastUse = &d
+					return d.name
+				}
+			}
+		}
+	}
+	return g.lname()
 }
 
 // pattern : variableModifier* typeType annotation* identifier
@@ -182,8 +219,7 @@ func (g *gen) pattern() {
 		g.use("variableModifier.annotation")
 		g.annotation(false)
 	}
-	g.simpleRefType()
-	g.w(g.sname())
+	g.patternVariable()
 }
 
 func (g *gen) unary() {
@@ -267,10 +303,19 @@ func (g *gen) postfix() {
 	g.depth++
 	defer func() { g.depth-- }()
 	if !g.primary() {
+		g.lastUse = nil
 		return
 	}
+	// the primary is a declared variable (or `this.field`): a call or method reference on it is one the
+	// full pass resolves through its symbol tables
+	recv := g.lastUse
+	g.lastUse = nil
 	for i := 0; i < 3; i++ {
-		switch g.pickW(14, 4, 3, 2, 1, 1, 1, 1) {
+		sel := g.pickW(14, 4, 3, 2, 1, 1, 1, 1)
+		if i == 0 && (sel == 1 || sel == 4 || sel == 6 || sel == 7) {
+			g.resolvedUse(recv)
+		}
+		switch sel {
 		case 0:
 			return
 		case 1:
@@ -388,10 +433,21 @@ func (g *gen) primary() (selectable bool) {
 	g.depth++
 	defer func() { g.depth-- }()
 	g.fuel--
-	switch g.pickW(10, 8, 6, 3, 3, 4, 2, 2, 2, 2, 1, 2, 1, 1) {
+	g.lastUse = nil
+	var used *declared
+	defer func() { g.lastUse = used }()
+	switch g.pickW(10, 8, 6, 3, 3, 4, 2, 2, 2, 2, 1, 2, 1, 1, 2) {
+	case 14:
+		g.use("expression.fieldAccess")
+		g.use("primary.this")
+		g.w("this")
+		g.glue(".")
+		g.glue(g.fieldName())
+		used = g.lastUse
 	case 0:
 		g.use("primary.identifier")
-		g.w(g.sname())
+		g.w(g.vname(false, 45))
+		used = g.lastUse
 	case 1:
 		g.use("primary.literal")
 		before := len(g.toks)
@@ -499,10 +555,27 @@ func (g *gen) primary() (selectable bool) {
 // creator: new ...
 func (g *gen) creator() {
 	g.w("new")
-	switch g.pickW(8, 3, 2, 2, 2, 2, 1, 1) {
+	switch g.pickW(8, 3, 2, 2, 2, 2, 1, 1, 1) {
+	case 8:
+		// a member type named through its outer type: new Outer.Inner(), new Outer.Inner<X>(), new Outer.Inner<>()
+		g.use("creator.class")
+		g.use("createdName.nested")
+		g.w(g.typeUseName(g.tname()))
+		g.glue(".")
+		g.glue(g.tname())
+		switch g.pickW(2, 1, 1) {
+		case 1:
+			g.use("createdName.typeArguments")
+			g.typeArguments()
+		case 2:
+			g.use("createdName.diamond")
+			g.glue("<")
+			g.glue(">")
+		}
+		g.arguments()
 	case 0:
 		g.use("creator.class")
-		g.w(g.tname())
+		g.w(g.typeUseName(g.tname()))
 		g.arguments()
 	case 1:
 		g.use("creator.class")
@@ -574,7 +647,8 @@ func (g *gen) creator() {
 		g.qualifiedName(2)
 		g.glue(".")
 		g.glue(g.tname())
-		if g.chance(30) {
+		switch g.pickW(6, 3, 2, 1) {
+		case 1:
 			g.typeArguments()
 			g.glue(".")
 			g.glue(g.tname())
@@ -584,6 +658,16 @@ func (g *gen) creator() {
 				g.glue("<")
 				g.glue(">")
 			}
+		case 2:
+			// new a.b.T<X>(): the first '<' of the created name comes after a dot
+			g.use("createdName.qualifiedTypeArguments")
+			g.use("createdName.typeArguments")
+			g.typeArguments()
+		case 3:
+			g.use("createdName.qualifiedTypeArguments")
+			g.use("createdName.diamond")
+			g.glue("<")
+			g.glue(">")
 		}
 		g.arguments()
 	}
@@ -624,11 +708,14 @@ func (g *gen) variableInitializer() {
 func (g *gen) lambda() {
 	g.depth++
 	defer func() { g.depth-- }()
+	defer g.release(g.mark()) // the parameters of the lambda
 	g.fuel--
 	switch g.pickW(5, 3, 3, 2, 2, 1, 1) {
 	case 0:
 		g.use("lambdaParameters.identifier")
-		g.w(g.sname())
+		name := g.sname()
+		g.w(name)
+		g.declareAs(name, "lambdaParameter", "untyped", false)
 	case 1:
 		g.use("lambdaParameters.empty")
 		g.w("(", ")")
@@ -640,7 +727,9 @@ func (g *gen) lambda() {
 			if i > 0 {
 				g.w(",")
 			}
-			g.w(g.sname())
+			name := g.sname()
+			g.w(name)
+			g.declareAs(name, "lambdaParameter", "untyped", false)
 		}
 		g.w(")")
 	case 3:
@@ -664,7 +753,9 @@ func (g *gen) lambda() {
 				g.use("variableModifier.annotation")
 				g.annotation(false)
 			}
-			g.w("var", g.sname())
+			name := g.sname()
+			g.w("var", name)
+			g.declareAs(name, "lambdaParameter", "var", false)
 		}
 		g.w(")")
 	case 5:
@@ -674,7 +765,9 @@ func (g *gen) lambda() {
 	case 6:
 		g.use("lambdaParameters.formalParameterList")
 		g.use("lastFormalParameter")
-		g.w("(", "String", "...", g.sname(), ")")
+		name := g.sname()
+		g.w("(", "String", "...", name, ")")
+		g.declareAs(name, "lambdaParameter", "array", false)
 	}
 	g.w("->")
 	if g.pickW(3, 2) == 1 {
@@ -697,7 +790,7 @@ func (g *gen) methodRef() {
 		g.glue(g.lname())
 	case 1:
 		g.use("expression.methodReference.expression")
-		g.w(g.sname())
+		g.w(g.vname(true, 70))
 		g.glue("::")
 		g.glue(g.lname())
 	case 2:
@@ -846,8 +939,7 @@ func (g *gen) guardedPatternBase() {
 		g.use("variableModifier.annotation")
 		g.annotation(false)
 	}
-	g.simpleRefType()
-	g.w(g.sname())
+	g.patternVariable()
 }
 
 func (g *gen) switchOutcome(arrow, asStatement bool) {
@@ -909,11 +1001,11 @@ func (g *gen) yieldOperand() {
 		g.literal()
 	case 1:
 		g.use("primary.identifier")
-		g.w(g.sname())
+		g.w(g.vname(false, 45))
 	case 2:
 		g.use("primary.identifier")
 		g.use("expression.arithmetic")
-		g.w(g.sname(), "+")
+		g.w(g.vname(false, 45), "+")
 		g.unary()
 	}
 }
